@@ -59,8 +59,40 @@ pub fn codes_n(m: &'static Model, n: usize) -> BoxedStrategy<Vec<u8>> {
         3 => Just(vec![lo; n]),
         3 => Just(vec![hi; n]),
         2 => (code(m), code(m)).prop_map(move |(a, b)| (0..n).map(|i| if i % 2 == 0 { a } else { b }).collect::<Vec<u8>>()),
+        4 => runs(m, n),
     ]
     .boxed()
+}
+
+/// run-structured content: stretches of one symbol (gap columns, N stretches, homopolymers) of lengths
+/// around the lane counts of a 64-bit word, between stretches of mixed symbols
+pub fn runs(m: &'static Model, n: usize) -> BoxedStrategy<Vec<u8>> {
+    let codes = m.codes();
+    let lo = *codes.iter().min().unwrap();
+    let hi = *codes.iter().max().unwrap();
+    let sym = prop_oneof![3 => Just(lo), 2 => Just(hi), 3 => code(m)];
+    let per = (64 / m.bits).max(1);
+    let runlen = prop_oneof![
+        3 => 1usize..4,
+        2 => (per.saturating_sub(1)).max(1)..=per + 1,
+        3 => per + 2..=3 * per + 1,
+        1 => 3 * per + 2..=5 * per,
+    ];
+    let pieces = n / 6 + 2;
+    vec((sym, runlen, vec(code(m), 0..4)), 1..=pieces.min(40))
+        .prop_map(move |ps| {
+            let mut out = Vec::with_capacity(n);
+            let mut i = 0;
+            while out.len() < n {
+                let (s, l, mixed) = &ps[i % ps.len()];
+                out.extend(std::iter::repeat(*s).take(*l));
+                out.extend(mixed.iter().copied());
+                i += 1;
+            }
+            out.truncate(n);
+            out
+        })
+        .boxed()
 }
 
 /// codes of generated length
